@@ -4,6 +4,7 @@
 package srcmodel
 
 import (
+	"go/build"
 	"go/ast"
 	"go/parser"
 	"go/token"
@@ -42,6 +43,12 @@ type Census struct {
 	FilesNoReg  []string          // lint_*.go files without any registration
 	BlankImport map[string]bool   // lints/<dir> blank-imported by v3/zlint.go
 	ParseErrors []string
+	NotBuilt    []NotBuiltReg // registrations made from init() of a file that a default build does not compile
+}
+
+type NotBuiltReg struct {
+	Registration
+	Why string
 }
 
 func findName(e ast.Expr) (string, bool) {
@@ -99,7 +106,45 @@ func TakeCensus(repo string) (*Census, error) {
 		files, _ := filepath.Glob(filepath.Join(lintsDir, e.Name(), "*.go"))
 		has := false
 		for _, f := range files {
+			notBuilt := ""
 			if strings.HasSuffix(f, "_test.go") {
+				notBuilt = "its name ends in _test.go, so it is compiled into the package's test binary only"
+			} else if ok, err := build.Default.MatchFile(filepath.Dir(f), filepath.Base(f)); err == nil && !ok {
+				notBuilt = "its build constraints (or GOOS/GOARCH file-name suffix) exclude it from a default build"
+			}
+			if notBuilt != "" {
+				// a file a default build does not compile: a lint registered from its init() is in the sources but in no registry
+				if af, err := parser.ParseFile(fset, f, nil, 0); err == nil {
+					rel, _ := filepath.Rel(root, f)
+					for _, d := range af.Decls {
+						fd, ok := d.(*ast.FuncDecl)
+						if !ok || fd.Recv != nil || fd.Name.Name != "init" {
+							continue
+						}
+						ast.Inspect(fd, func(x ast.Node) bool {
+							call, ok := x.(*ast.CallExpr)
+							if !ok {
+								return true
+							}
+							sel, ok := call.Fun.(*ast.SelectorExpr)
+							if !ok {
+								return true
+							}
+							if pk, ok := sel.X.(*ast.Ident); !ok || pk.Name != "lint" {
+								return true
+							}
+							switch sel.Sel.Name {
+							case "RegisterLint", "RegisterCertificateLint", "RegisterRevocationListLint", "RegisterOcspResponseLint":
+								r := Registration{File: rel, Dir: e.Name(), Func: sel.Sel.Name, InInit: true}
+								if len(call.Args) == 1 {
+									r.Name, r.Resolved = findName(call.Args[0])
+								}
+								c.NotBuilt = append(c.NotBuilt, NotBuiltReg{r, notBuilt})
+							}
+							return true
+						})
+					}
+				}
 				continue
 			}
 			has = true
